@@ -293,6 +293,9 @@ let c01 ic =
     (match (try Some (wire_of_bytes (Array.of_list (L.map int_of_n bs))) with Malformed -> None) with
      | Some wt when (not has_api) && Wire.wf wt && Wire.no_nan wt && Wire.enc wt = bs ->
          L.iter (fun o -> Printf.printf "S %d %s\n" !id (show_out !w o)) (ReadSpec.spec_run wt (L.filter_map (function `R r -> Some r | _ -> None) opl))
+     | _ when (not has_api) && L.length bs <= 3000 ->
+         (* malformed / arbitrary bytes: the stateless sequential decoder of Read/SeqSpec.v (theorem C08_value) *)
+         L.iter (fun o -> Printf.printf "S %d %s\n" !id (show_out !w o)) (SeqSpec.seq_run !w true bs (L.filter_map (function `R r -> Some r | _ -> None) opl))
      | _ -> Printf.printf "S %d NOSPEC\n" !id) in
   (try while true do
     let line = input_line ic in
